@@ -127,7 +127,7 @@ func execute(t *testing.T, cfg Config, c bubble.Chooser, strict bool) execOut {
 		s.OnDrain(func() {
 			w.ctx.Stop() // first the outer context (its cleanup stops the nested one) ...
 			for _, n := range w.nestedCtx {
-				n.Stop() // ... then the nested context, in case the outer run never started
+				go n.Stop() // ... then the nested contexts, in case the outer run never started
 			}
 		})
 		runs := 1
@@ -300,6 +300,13 @@ func execute(t *testing.T, cfg Config, c bubble.Chooser, strict bool) execOut {
 		// runStateLock (the defect this check reports) it is let through with the teardown seam, so that the
 		// bubble can drain instead of running into the mutex deadlock again.
 		s.Go("teardown-stop", w.ctx.Stop)
+		if w.ticker != nil {
+			// an owner that never ran never closes its nested system: stop the nested contexts here, under the
+			// driver's control (a ticker left running would spin for ever once scheduling points stop parking)
+			for _, n := range w.nestedCtx {
+				s.Go("teardown-stop-nested", n.Stop)
+			}
+		}
 		for i := 0; i < 4*maxSteps; i++ {
 			s.Settle()
 			for j := 0; j < 4 && w.ctx.VerifRunStateLockHeld(); j++ {
